@@ -157,8 +157,9 @@ static bool step()
 	// "k": initial distance of the generation counter to 2^32-1 (>= 50: a fresh list, counter untouched); "j": later jump towards it
 	if(k == "k") { if(o.b < 50) L[o.a]->verifSetCurrentCounter(0xFFFFFFFFu - (unsigned)o.b); ev("k", o.a, o.b, 0, 0); }
 	else if(k == "j") { L[o.a]->verifSetCurrentCounter(0xFFFFFFFFu - (unsigned)o.b); ev("j", o.a, o.b, 0, 0); }
-	else if(k == "a") { int id = (int)H.size() + 1; H.push_back(L[o.a]->append(Cb(id))); ev("a", o.a, 0, 0, id); }
-	else if(k == "p") { int id = (int)H.size() + 1; H.push_back(L[o.a]->prepend(Cb(id))); ev("p", o.a, 0, 0, id); }
+	// (o.b > 0 in a / p: the callback is EQUAL to callback identity o.b - the same comparable callback registered once more; UtilGen scripts only)
+	else if(k == "a") { int id = (int)H.size() + 1; int c = o.b > 0 ? o.b : id; H.push_back(L[o.a]->append(Cb(c))); ev("a", o.a, 0, c == id ? 0 : c, id); }
+	else if(k == "p") { int id = (int)H.size() + 1; int c = o.b > 0 ? o.b : id; H.push_back(L[o.a]->prepend(Cb(c))); ev("p", o.a, 0, c == id ? 0 : c, id); }
 	else if(k == "i") { int id = (int)H.size() + 1; Handle b = handleOf(o.b); H.push_back(L[o.a]->insert(Cb(id), b)); ev("i", o.a, o.b, 0, id); }
 	else if(k == "r") { bool r = L[o.a]->remove(handleOf(o.b)); ev("r", o.a, o.b, 0, r ? 1 : 0); }
 	else if(k == "o") { bool r = L[o.a]->ownsHandle(handleOf(o.b)); ev("o", o.a, o.b, 0, r ? 1 : 0); }
